@@ -51,7 +51,8 @@ def in_finding_domain(out: Outcome, cls: str, p: dict, const_value) -> str | Non
     return None
 
 
-def check_trace(out: Outcome, cls: str, p: dict, ops: list[tuple], const_value=None, label: str = "", const_after_reset=None) -> dets.Runner | None:
+def check_trace(out: Outcome, cls: str, p: dict, ops: list[tuple], const_value=None, label: str = "", const_after_reset=None, quiet_until: int = 0) -> dets.Runner | None:
+    """quiet_until: the first operations are not recorded for the model comparison (only the flags are read) - keeps very long warm-ups cheap"""
     r = dets.Runner("a", cls, p)
     if r.det is None:
         return None
@@ -62,7 +63,7 @@ def check_trace(out: Outcome, cls: str, p: dict, ops: list[tuple], const_value=N
     flagged = False
     for k, op in enumerate(ops):
         if op[0] == "u":
-            r.update(op[1])
+            r.update(op[1], observe=k >= quiet_until)
             u += 1
             if r.err is not None:
                 break
@@ -181,6 +182,29 @@ def run(out: Outcome) -> None:
                 vals = [0.0] * (mn // 2) + [50.0 + j for j in range(n)]
             ops = [("u", v) for v in vals] + [("r",)] + [("u", v) for v in vals]
             r = check_trace(out, cls, p, ops)
+            if r:
+                runners.append(r)
+        # LARGE warm-ups (beyond 2^11 instances): the same "alarm as early as possible" traces; nothing may be flagged before the configured count,
+        # and the flags must come once it is reached
+        for _ in range(2 if thorough else 1):
+            mn = rng.randint(2100, 2600)
+            p = gen.rand_params(rng, cls)
+            key = "min_num_misclassified_instances" if cls == "EDDM" else "min_num_instances"
+            p[key] = mn
+            if cls == "KSWIN":
+                p = {"alpha": 0.5, "min_num_instances": mn, "num_test_instances": rng.choice([1, 40])}
+            if cls == "RDDM":
+                p = {**p, "min_concept_size": 7000, "max_concept_size": 40000, "max_num_instances_warning": 1400}
+            n = 260
+            if cls in dets.BINARY_ONLY or cls in dets.UNIT_INTERVAL:
+                vals = [0] * (mn // 2) + [1] * (mn - mn // 2 + n)
+                if cls == "STEPD":
+                    vals = [1] * (2 * mn - 40) + [0] * n
+                if cls == "EDDM":
+                    vals = ([0, 0, 0, 1] * 200) + [1] * (mn + n)
+            else:
+                vals = [0.0] * (mn // 2) + [50.0 + (j % 7) for j in range(mn - mn // 2 + n)]
+            r = check_trace(out, cls, p, [("u", v) for v in vals], label="large-warm-up:", quiet_until=(len(vals) - 2 * n) if cls == "BOCD" else 0)
             if r:
                 runners.append(r)
         # constant streams (with resets)
